@@ -12,6 +12,7 @@ import (
 	"github.com/mdlayher/corerad/internal/plugin"
 	"github.com/mdlayher/corerad/internal/system"
 	"github.com/mdlayher/corerad/internal/verifh"
+	"github.com/mdlayher/corerad/internal/verifw"
 	"github.com/mdlayher/ndp"
 )
 
@@ -41,7 +42,7 @@ func c15Pool() []system.Route {
 func wRoutesCoq(rs []system.Route) string {
 	items := make([]string, 0, len(rs))
 	for _, r := range rs {
-		items = append(items, wRouteCoq(r))
+		items = append(items, verifw.RouteCoq(r))
 	}
 	return verifh.List(items)
 }
@@ -60,7 +61,7 @@ func TestVerifC15(t *testing.T) {
 	defer out.Close()
 
 	emit := func(id string, rs []system.Route, mode string, r *verifh.Rand, tags []string) {
-		lt, _, dep, epoch, now := wLifetimes(r)
+		lt, _, dep, epoch, now := verifw.Lifetimes(r)
 		prf := verifh.Pick(r, []ndp.Preference{ndp.Low, ndp.Medium, ndp.High})
 		p := &plugin.Route{
 			Auto: true, Prefix: netip.PrefixFrom(netip.IPv6Unspecified(), 0),
@@ -92,9 +93,9 @@ func TestVerifC15(t *testing.T) {
 		if err != nil && len(ra.Options) != 0 {
 			c.ImplViolation = "Apply returned an error but left options in the RA"
 		}
-		obsCoq, obsJ := wResult(ra, err)
-		c.Coq = verifh.App("mkCase", wPref(prf), verifh.Z(lt), verifh.B(dep), verifh.Z(epoch), verifh.Z(now), routesCoq, obsCoq)
-		c.Input = map[string]any{"routes": wRoutesJSON(rs), "source": mode, "preference": wPref(prf),
+		obsCoq, obsJ := verifw.Result(ra, err)
+		c.Coq = verifh.App("mkCase", verifw.Pref(prf), verifh.Z(lt), verifh.B(dep), verifh.Z(epoch), verifh.Z(now), routesCoq, obsCoq)
+		c.Input = map[string]any{"routes": wRoutesJSON(rs), "source": mode, "preference": verifw.Pref(prf),
 			"lifetime_ns": lt, "deprecated": dep, "epoch_ns": epoch, "now_ns": now}
 		c.Observed = obsJ
 		out.Emit(c)
@@ -106,8 +107,8 @@ func TestVerifC15(t *testing.T) {
 	if verifh.Thorough() {
 		maxLen = 4
 	}
-	wSeqs(len(pool), maxLen, func(seq []int) {
-		id := "c15-seq-" + wSeqID(seq)
+	verifw.Seqs(len(pool), maxLen, func(seq []int) {
+		id := "c15-seq-" + verifw.SeqID(seq)
 		if !out.Wants(id) {
 			return
 		}
@@ -118,7 +119,7 @@ func TestVerifC15(t *testing.T) {
 			rs = append(rs, rt)
 		}
 		tag := "stream:subset-permutation"
-		if !wDistinct(seq) {
+		if !verifw.Distinct(seq) {
 			tag = "stream:with-duplicates"
 		}
 		emit(id, rs, "ok", verifh.NewRand(verifh.Seed(), id), []string{tag})
@@ -173,7 +174,7 @@ func TestVerifC15(t *testing.T) {
 				} else if r.Chance(30) {
 					lo = uint64(r.Intn(3))
 				}
-				rt.Prefix = netip.PrefixFrom(wAddr16(verifh.Pick(r, his), lo), verifh.Pick(r, lens))
+				rt.Prefix = netip.PrefixFrom(verifw.Addr16(verifh.Pick(r, his), lo), verifh.Pick(r, lens))
 			}
 			if !(noncanon && r.Chance(40)) {
 				rt.Prefix = rt.Prefix.Masked()
